@@ -28,7 +28,11 @@ RULE = ("Histories of up to 40 (quick) / 120 (thorough) operations over file num
         "LOCK/UNLOCK of whole files, single records and ranges chosen relative to a held range "
         "(equal, inside, containing, overlapping left/right, adjacent, disjoint, same start, same "
         "end) or absolute in 1..14 and at the limits 1, 2^25-2, GET/PUT of records inside, at the "
-        "edges of and just outside held ranges, CLOSE. Non-trivial: some LOCK request intersects a "
+        "edges of and just outside held ranges, with a record number or without one (then the "
+        "record after the last one accessed: positioned by explicit or earlier implicit accesses, "
+        "also with the range locked afterwards relative to that pointer, so that the implicit "
+        "access falls on the first/last record of, just before or just after a range held through "
+        "another or the same number), CLOSE. Non-trivial: some LOCK request intersects a "
         "range held through a different file number, or a GET/PUT addresses a record locked through "
         "another number. Distinct = distinct case hash.")
 ASSUMPTIONS = [
@@ -49,6 +53,12 @@ ASSUMPTIONS = [
     "model follows the observed outcome",
     "GET/PUT of a record nobody else has locked must succeed only when no ACCESS/LOCK clause is in "
     "play on that file; otherwise success or Path/File access error are both accepted",
+    "record pointer per RANDOM number: 1 after OPEN, last accessed record + 1 after a successful "
+    "GET/PUT; after a refused access the statement does not say where it stands, so accesses "
+    "without record number are skipped until the next successful explicit access",
+    "a refused PUT must leave the record unchanged: compared on the host file bytes (after LOF "
+    "flushed every number's stream) and through a GET of the lock holder (the latter can be blind "
+    "while finding C25 alias.* - per-number buffered streams - is open, never falsely red)",
     "ranges with start > stop and the form 'LOCK #n, TO b' (Syntax error in the implementation, "
     "allowed by the manual) are not generated",
 ]
@@ -106,6 +116,10 @@ class Num(object):
     def __init__(self, f, mode, acc, lock):
         self.f, self.mode, self.acc, self.lock = f, mode, acc, lock
         self.held = set()
+        # record pointer of a RANDOM number: the record an access without record number goes to
+        # (1 after OPEN, last accessed + 1 afterwards); None = unknown (after a refused access the
+        # statement does not say where the pointer stands)
+        self.next = 1
 
 
 class Run(object):
@@ -227,6 +241,11 @@ class Run(object):
             self.nums[n] = Num(f, mode, acc, lock)
             if existing:
                 self.res.label('open:shared-file')
+            if mode == 'R':
+                o = self.ex('FIELD #%d, %d AS F%d$' % (n, RECLEN, n))
+                if o is not None and o.errors:
+                    self.fail('field.error', 'FIELD #%d -> %r' % (n, o.errors))
+                    self.stop = True
 
     def expect_open(self, mode, acc, lock, existing):
         """-> ('ok' | 'silent' | error code, reason tag)"""
@@ -279,6 +298,14 @@ class Run(object):
             lo = rep(sel['lo'])
             hi = max(lo, rep(sel['hi']))
             return (lo, hi), 'abs'
+        if k == 'ptr':
+            # placed relative to the record pointer of a RANDOM number (usually another one), so
+            # that its next access without record number lands on the first record of the range,
+            # just before it, or just after its last record
+            t = self.pick(int(sel.get('of', 0)), modes='R')
+            base = self.nums[t].next if t is not None and self.nums[t].next else 3
+            lo = rep(base + int(sel.get('d0', 0)))
+            return (lo, max(lo, rep(lo + int(sel.get('w', 0))))), 'ptr'
         if k == 'own':
             held = [(n, r) for r in sorted(m.held, key=str)]
         else:
@@ -436,6 +463,27 @@ class Run(object):
             if not o.err:
                 self.stop = True
 
+    def flush_and_read(self, f, rec):
+        """Bytes of record `rec` in the host file after everything pending was written out."""
+        for k in sorted(self.nums):
+            if self.nums[k].f == f and self.nums[k].mode == 'R':
+                self.s.evaluate('LOF(%d)' % k)       # the seek behind LOF flushes that stream
+        with open(os.path.join(self.s.sandbox.z, FILES[f]), 'rb') as fh:
+            fh.seek((rec - 1) * RECLEN)
+            return fh.read(RECLEN)
+
+    def holder_read(self, k, rec):
+        """Read record `rec` through the number that holds the lock (None if it cannot read)."""
+        hm = self.nums[k]
+        if hm.mode != 'R':
+            return None
+        o = self.ex('GET #%d, %d' % (k, rec))
+        if o is None or o.errors:
+            hm.next = None
+            return None
+        hm.next = rec + 1
+        return self.s.get('F%d$' % k)
+
     def do_access(self, op):
         n = self.pick(op['n'], modes='R')
         if n is None:
@@ -446,25 +494,59 @@ class Run(object):
         sel = op['rec']
         others = self.held_on(m.f, exclude=n)
         allheld = self.held_on(m.f)
-        if sel.get('k') == 'rel' and allheld:
+        implicit = sel.get('k') == 'imp'
+        if implicit:
+            if m.next is None or m.next > MAXLOCK:
+                self.res.label('skip:implicit-pointer-unknown')
+                return
+            rec = m.next
+        elif sel.get('k') == 'rel' and allheld:
             owner, y = allheld[int(sel.get('h', 0)) % len(allheld)]
             a, b = (1, 6) if y == WHOLE else y
             where = sel.get('at', 'lo')
-            rec = {'lo': a, 'hi': b, 'mid': (a + b) // 2, 'before': a - 1, 'after': b + 1}[where]
+            rec = {'lo': a, 'hi': b, 'mid': (a + b) // 2, 'before': a - 1, 'after': b + 1,
+                   'before2': a - 2, 'hi-1': b - 1}[where]
             rec = rep(rec)
         else:
             rec = 1 + int(sel.get('r', 0)) % 14
         if put and rec > 64:
             # a PUT far beyond the end would write up to 128 MiB of padding: read instead
             put = False
-        text = '%s #%d, %d' % ('PUT' if put else 'GET', n, rec)
+        blockers = [(k, y) for k, y in others if intersects((rec, rec), y)]
+        mine = [y for k, y in allheld if k == n and intersects((rec, rec), y)]
+        before = held_before = None
+        if put:
+            o = self.ex('LSET F%d$="S%03d"' % (n, self.step % 1000))
+            if o is None:
+                return
+            if blockers:
+                # the PUT must be refused: remember the record, as the host file holds it and as
+                # the lock holder reads it
+                before = self.flush_and_read(m.f, rec)
+                held_before = self.holder_read(blockers[0][0], rec)
+                if self.stop:
+                    return
+        if implicit:
+            text = '%s #%d' % ('PUT' if put else 'GET', n)
+            shown = '%s (record pointer at %d)' % (text, rec)
+        else:
+            text = shown = '%s #%d, %d' % ('PUT' if put else 'GET', n, rec)
         o = self.ex(text)
         if o is None:
             return
-        self.res.label('op:put' if put else 'op:get')
-        blockers = [(k, y) for k, y in others if intersects((rec, rec), y)]
-        mine = [y for k, y in allheld if k == n and intersects((rec, rec), y)]
-        ctx = '%s with {%s}' % (text, self.describe())
+        self.res.label(('op:put' if put else 'op:get') + ('-implicit' if implicit else ''))
+        m.next = rec + 1 if not o.err else None
+        ctx = '%s with {%s}' % (shown, self.describe())
+        # where the accessed record lies relative to the ranges (labels for implicit accesses)
+        if implicit:
+            for k, y in allheld:
+                if y == WHOLE:
+                    continue
+                who = 'own' if k == n else 'other'
+                for name, r in (('just-before', y[0] - 1), ('first', y[0]), ('last', y[1]),
+                                ('just-after', y[1] + 1)):
+                    if rec == r:
+                        self.res.label('implicit:%s-of-%s-range' % (name, who))
         if blockers:
             self.res.nt(True)
             if (not put) and all(self.nums[k].mode in 'OA' for k, _ in blockers):
@@ -474,6 +556,16 @@ class Run(object):
             if o.err == 0:
                 self.fail('access.locked-record-allowed',
                           '%s succeeded although the record is locked through %r' % (ctx, blockers))
+            elif put:
+                after = self.flush_and_read(m.f, rec)
+                if after != before:
+                    self.fail('access.refused-put-changed-record', '%s -> %r but record %d of the '
+                              'host file changed from %r to %r' % (ctx, o.errors, rec, before, after))
+                held_after = self.holder_read(blockers[0][0], rec)
+                if held_before is not None and held_after is not None and held_after != held_before:
+                    self.fail('access.refused-put-changed-record', '%s -> %r but the lock holder '
+                              '#%d reads record %d as %r, before %r' % (
+                                  ctx, o.errors, blockers[0][0], rec, held_after, held_before))
         else:
             clauses = any(x.acc or x.lock for x in self.nums.values() if x.f == m.f)
             self.res.label('access:own-lock' if mine else 'access:unlocked')
@@ -540,8 +632,10 @@ def strat_case(maxops):
                          'same-start', 'same-end', 'adj-right']), small, small), 6))
     rec = weighted(
         (st.builds(lambda h, at: {'k': 'rel', 'h': h, 'at': at}, k,
-                   st.sampled_from(['lo', 'hi', 'mid', 'before', 'after'])), 3),
-        (st.builds(lambda r: {'k': 'abs', 'r': r}, st.integers(0, 13)), 1))
+                   st.sampled_from(['lo', 'hi', 'mid', 'before', 'after', 'before2', 'before',
+                                    'hi-1'])), 3),
+        (st.builds(lambda r: {'k': 'abs', 'r': r}, st.integers(0, 13)), 1),
+        (st.just({'k': 'imp'}), 3))
     mode = st.sampled_from(['R', 'R', 'R', 'R', 'R', 'I', 'O', 'A'])
     op_open = st.builds(
         lambda n, f, mode, acc, lock, lc, old: {'o': 'open', 'n': n, 'f': f, 'mode': mode,
@@ -568,9 +662,23 @@ def strat_case(maxops):
     op_lim = st.builds(lambda n, b, un, form: {'o': 'limits', 'n': n, 'b': b, 'un': un,
                                                'form': form}, k, st.integers(0, 34),
                        st.booleans(), st.integers(0, 2))
-    one = weighted((op_open_plain, 2), (op_open, 1), (op_open_shared, 1), (op_close, 1),
-                   (op_lock, 9), (op_unlock, 4), (op_get, 3), (op_put, 3), (op_lim, 1))
-    body = st.integers(1, maxops).flatmap(lambda n: st.lists(one, min_size=n, max_size=n))
+    # position one number, let another one lock a range placed relative to that pointer, then
+    # access without record number (twice): first / just-before / just-after-last records
+    acc = st.sampled_from(['get', 'put'])
+    walk = st.builds(
+        lambda n, n2, r, d0, w, a1, a2, a3: [
+            {'o': a1, 'n': n, 'rec': r},
+            {'o': 'lock', 'n': n2, 'rng': {'k': 'ptr', 'of': n, 'd0': d0, 'w': w}, 'long': True},
+            {'o': a2, 'n': n, 'rec': {'k': 'imp'}},
+            {'o': a3, 'n': n, 'rec': {'k': 'imp'}}],
+        k, k, st.builds(lambda r: {'k': 'abs', 'r': r}, st.integers(0, 9)),
+        st.sampled_from([0, 0, 1, 1, 2, -1, -2, -3]), st.sampled_from([0, 1, 2, 3]), acc, acc, acc)
+    single = weighted((op_open_plain, 2), (op_open, 1), (op_open_shared, 1), (op_close, 1),
+                      (op_lock, 9), (op_unlock, 4), (op_get, 4), (op_put, 4), (op_lim, 1))
+    one = weighted((single.map(lambda o: [o]), 12), (walk, 1))
+    body = st.integers(1, maxops).flatmap(
+        lambda n: st.lists(one, min_size=n, max_size=n)).map(
+            lambda groups: [o for g in groups for o in g][:maxops + 8])
     # most histories start with two numbers on the same file so that ranges can meet
     start = st.one_of(
         st.tuples(op_open_plain, op_open_plain).map(list),
@@ -620,6 +728,25 @@ REGRESSIONS = [
         {'o': 'lock', 'n': 1, 'rng': {'k': 'whole'}},
     ]},
 ]
+
+REGRESSIONS.append(
+    # accesses WITHOUT record number go to the record after the last one accessed; the lock test
+    # must look at that record (reviewer's seeded change tested the previous one)
+    {'ops': [
+        {'o': 'open', 'n': 0, 'f': 0, 'mode': 'R', 'acc': '', 'lock': '', 'lc': False},
+        {'o': 'open', 'n': 0, 'f': 0, 'mode': 'R', 'acc': '', 'lock': '', 'lc': True},
+        {'o': 'get', 'n': 1, 'rec': {'k': 'abs', 'r': 5}},                      # GET #2,6
+        {'o': 'lock', 'n': 0, 'rng': {'k': 'ptr', 'of': 1, 'd0': -4, 'w': 3}},   # LOCK #1,3 TO 6
+        {'o': 'get', 'n': 1, 'rec': {'k': 'imp'}},                              # record 7: free
+        {'o': 'put', 'n': 1, 'rec': {'k': 'imp'}},                              # record 8: free
+        {'o': 'get', 'n': 1, 'rec': {'k': 'abs', 'r': 1}},                      # GET #2,2
+        {'o': 'get', 'n': 1, 'rec': {'k': 'imp'}},                              # record 3: locked
+        {'o': 'put', 'n': 1, 'rec': {'k': 'abs', 'r': 1}},                      # PUT #2,2
+        {'o': 'put', 'n': 1, 'rec': {'k': 'imp'}},                              # record 3: locked
+        {'o': 'get', 'n': 0, 'rec': {'k': 'abs', 'r': 1}},                      # GET #1,2
+        {'o': 'put', 'n': 0, 'rec': {'k': 'imp'}},                              # own range: fine
+        {'o': 'get', 'n': 0, 'rec': {'k': 'imp'}},
+    ]})
 
 KILLS = [
     'Locks._try_record_lock: endpoint-only overlap test restored (pre-4d4fdd37)  => ./check red: lock.containing-accepted (regression)',
